@@ -393,7 +393,7 @@ let cmd_gen ?(auto=false) file =
   | GenFirstUnstable -> print_endline "FIRSTUNSTABLE"
   | GenFuel -> print_endline "FUEL"
 
-(* frontsem <table file> <fuel per token> colon semi bar tokId regDefId ignoredTokId prodId string_lit error empty :
+(* frontsem <table file> <fuel per token> colon semi bar tokId regDefId ignoredTokId prodId string_lit error empty char_lit minus :
    the front-end model (Front/Sem.v): parser on the shipped tables + semantic checks.  stdin: one token list per line
    "type:hexliteral ..." (front-end type numbers, EOF omitted); stdout "ACC|REJ PARSE=ok|rej SEM=ok|<reason> <hex names>" *)
 let cmd_frontsem file fpt nums =
@@ -424,13 +424,37 @@ let cmd_frontsem file fpt nums =
     let fuel = nat_of_int_tr (fpt * (List.length toks + 2)) in
     let p = parse_ok tb fuel toks in
     let v = sem_verdict ft toks in
-    let acc = front_accepts ft tb fuel toks in
+    let rg = ranges_ok n.(10) n.(11) toks in
+    let acc = front_accepts_r ft n.(10) n.(11) tb fuel toks in
     print_endline (Printf.sprintf "%s PARSE=%s SEM=%s" (if acc then "ACC" else "REJ") (if p then "ok" else "rej")
-      (match v with SemOk -> "ok" | SemReject r -> show_reason r)))
+      (if p && not rg then "empty-range" else match v with SemOk -> "ok" | SemReject r -> show_reason r)))
+
+(* lexgen <lexdump> <fuel> [<emitted table file>]: the Gallina model of gocc's LEXER generator (Lex/LexGen.v, proved correct against
+   the derivative semantics for every grammar) run on the lexical part as gocc parsed it; its DFA must be structurally equal
+   (numbering, class order, targets, accept codes) to gocc's (item sets, and the emitted tables when given) *)
+let cmd_lexgen args =
+  match args with
+  | file :: fuel :: rest ->
+    let (g, rows0, acts0) = read_lexdump file in
+    let emitted = (match rest with t :: _ -> Some (read_table_file t) | [] -> None) in
+    (match lexgen g (nat_of_int_tr (int_of_string fuel)) with
+     | None -> Printf.printf "NONE wf=%b\n" (lex_wf g)
+     | Some (rows, acts) ->
+       let first_diff r1 a1 r2 a2 =
+         let rec go i r1 a1 r2 a2 = match r1, a1, r2, a2 with
+           | x :: r1, a :: a1, y :: r2, b :: a2 -> if x = y && a = b then go (i + 1) r1 a1 r2 a2 else i
+           | [], [], [], [] -> -1
+           | _ -> i in go 0 r1 a1 r2 a2 in
+       let d1 = first_diff rows acts rows0 acts0 in
+       let d2 = (match emitted with Some (r, a) -> first_diff rows acts r a | None -> -1) in
+       if d1 < 0 && d2 < 0 then Printf.printf "EQUAL states=%d\n" (List.length rows)
+       else Printf.printf "DIFF itemsets_state=%d emitted_state=%d model_states=%d gocc_states=%d\n" d1 d2 (List.length rows) (List.length rows0))
+  | _ -> failwith "lexgen"
 
 let () =
   match Array.to_list Sys.argv with
-  | _ :: "frontsem" :: file :: fpt :: nums when List.length nums = 10 -> cmd_frontsem file (int_of_string fpt) nums
+  | _ :: "lexgen" :: args -> cmd_lexgen args
+  | _ :: "frontsem" :: file :: fpt :: nums when List.length nums = 12 -> cmd_frontsem file (int_of_string fpt) nums
   | _ :: "gen" :: file :: _ -> cmd_gen file
   | _ :: "genauto" :: file :: _ -> cmd_gen ~auto:true file
   | _ :: "sdt" :: _ -> cmd_sdt ()
